@@ -48,13 +48,15 @@ pub struct Size {
     /// multi-word keys of the document may be queried in another naming convention (the tool then
     /// finds them through its case converters); only for checks that compare the tool with itself
     pub alt_case: bool,
+    /// core files may carry clauses outside any rule (the implicit `default` rule)
+    pub default_rule: bool,
 }
 impl Size {
     pub fn quick() -> Size {
-        Size { doc_depth: 3, doc_width: 4, rules: 4, lines: 3, alts: 3, nest: 2, alt_case: false }
+        Size { doc_depth: 3, doc_width: 4, rules: 4, lines: 3, alts: 3, nest: 2, alt_case: false, default_rule: false }
     }
     pub fn thorough() -> Size {
-        Size { doc_depth: 5, doc_width: 5, rules: 4, lines: 4, alts: 3, nest: 3, alt_case: false }
+        Size { doc_depth: 5, doc_width: 5, rules: 4, lines: 4, alts: 3, nest: 3, alt_case: false, default_rule: false }
     }
 }
 
@@ -779,5 +781,18 @@ pub fn gen_core_file(u: &mut Choices, doc: &V, sz: Size, prefneg_binary: bool, d
         let body = g.gen_cnf(u, Some(doc), 0, &vars, RefCtx::RuleBody);
         rules.push(Rule { name: names[i].clone(), when, lets, body });
     }
-    File { lets: flets, prules: vec![], rules, default: vec![] }
+    // clauses outside any rule: the body of the implicit rule `default`
+    let mut default = vec![];
+    if sz.default_rule && u.chance(1, 5) {
+        g.refs = vec![];
+        default = g.gen_cnf(u, Some(doc), 0, &fvars, RefCtx::Inner);
+        // grammar: at file level a `when` block is an expression of its own, not an `or` alternative
+        for line in default.iter_mut() {
+            if line.len() > 1 {
+                line.retain(|it| !matches!(it, Item::When { .. }));
+            }
+        }
+        default.retain(|l| !l.is_empty());
+    }
+    File { lets: flets, prules: vec![], rules, default }
 }
